@@ -54,8 +54,8 @@ def replay_cases(ctx, kind=None):
 
 CLAIM_C20 = dict(
     category="model_checking", design_ref="DESIGN.md §4 C20",
-    text="(a) TLC enumerates every character sequence over {/ : . @ _ # a b} that starts like a label (':', '@', '//') up to "
-         "length 6-7 (quick) / 8 (thorough) as states of LabelsStr.tla, checks on each that the algorithm-level model of "
+    text="(a) TLC enumerates every character sequence over {/ : . @ _ a b} (quick) / {/ : . @ _ # a b} (thorough) that starts like a "
+         "label (':', '@', '//') up to length 6-7 (quick) / 7-8 (thorough) as states of LabelsStr.tla, checks on each that the algorithm-level model of "
          "ParseBuildLabelParts/String agrees with the property-level grammar (Denote) and round-trips, and emits every string that "
          "is valid or model-accepted with its denotation and class; plus all written forms of ~1 300 (quick) / ~7 700 (thorough) "
          "structured valid labels with multi-segment packages and subrepos, plus seeded random strings up to length 14 from "
@@ -163,7 +163,7 @@ def c20_patterns(ctx, cases):
 
 @register("C20", claim=CLAIM_C20)
 def run_c20(ctx):
-    ctx.rule = ("(a) every string over the 8-character alphabet starting ':', '@' or '//' up to the tier's length is a TLC state "
+    ctx.rule = ("(a) every string over the 7/8-character alphabet starting ':', '@' or '//' up to the tier's length is a TLC state "
                 "of LabelsStr.tla; cases = strings that are valid (grammar Denote) or accepted by the parser model, plus every "
                 "written form of the generated structured labels; each replayed through the real TryParseBuildLabel/String/"
                 "TryParseBuildLabel; the harness re-walks the same space for strings only the real parser accepts. Non-trivial: "
@@ -185,7 +185,7 @@ def run_c20(ctx):
         ctx.traces_validated = len(sc) + len(pc)
         return
     q = ctx.quick
-    bounds = dict(max_colon=6, max_at=6, max_slash=7) if q else dict(max_colon=8, max_at=8, max_slash=8)
+    bounds = dict(max_colon=6, max_at=6, max_slash=7) if q else dict(max_colon=7, max_at=7, max_slash=8)
     jobs = [("LabelsStr", "GEN_LabelsStr_q.cfg" if q else "GEN_LabelsStr_t.cfg", dict(workers=8 if q else 14)),
             ("LabelsStr", "GEN_LabelsForms_q.cfg" if q else "GEN_LabelsForms_t.cfg", dict(workers=1)),
             ("LabelsPat", "GEN_LabelsPat_3.cfg" if q else "GEN_LabelsPat_4.cfg", dict(workers=2))]
@@ -194,7 +194,7 @@ def run_c20(ctx):
     # fuzzed longer strings: random walks of LabelsStr.tla up to length 14 (every prefix is a case)
     jobs.append(("LabelsStr", "SIM_LabelsStr.cfg", dict(workers=1, simulate=150 if q else 4000, depth=14, seed=ctx.seed)))
     rs = tlc_parallel(ctx, jobs)
-    space = dict(alphabet=["/", ":", ".", "@", "_", "#", "a", "b"], **bounds)
+    space = dict(alphabet=["/", ":", ".", "@", "_", "a", "b"] + ([] if q else ["#"]), **bounds)
     n_space, n_acc = c20_strings(ctx, rs[0].cases, space)
     if n_space != rs[0].distinct:
         raise vlib.Infra("string space mismatch: TLC enumerated %d strings, the harness %s" % (rs[0].distinct, n_space))
@@ -245,7 +245,7 @@ def run_c33(ctx):
     if ctx.replay_only is not None:
         cases = replay_cases(ctx)
     else:
-        profs = ["single", "testonly", "vis2", "deps2"] if ctx.quick else ["single_3", "testonly", "vis2", "deps2"]
+        profs = ["single", "testonly", "vis2", "deps2"] if ctx.quick else ["single_3", "testonly", "vis2", "deps2", "vis2w", "deps3"]
         rs = tlc_parallel(ctx, [("Visibility", "GEN_Visibility_%s.cfg" % p, dict(workers=4)) for p in profs])
         cases = [c for r in rs for c in r.cases]
         ctx.exhaustive = True
@@ -315,13 +315,14 @@ def run_c36(ctx):
         cases = replay_cases(ctx)
         universe = ctx.replay_only[0].get("universe")
     else:
-        cfgs = ["GEN_Filters_q1.cfg", "GEN_Filters_q2.cfg"] if ctx.quick else ["GEN_Filters_t.cfg", "GEN_Filters_t2.cfg"]
-        jobs = [("Filters", c, dict(workers=6 if ctx.quick else 8)) for c in cfgs]
+        cfgs = (["GEN_Filters_q1.cfg", "GEN_Filters_q2.cfg"] if ctx.quick
+                else ["GEN_Filters_t.cfg", "GEN_Filters_t2.cfg"])
+        jobs = [("Filters", c, dict(workers=6 if ctx.quick else 12)) for c in cfgs]
         if not ctx.quick:
             jobs.append(("Filters", "MC_Filters.cfg", dict(workers=2)))
         rs = tlc_parallel(ctx, jobs)
         seen, cases = set(), []
-        for r in rs[:2]:
+        for r in rs[:len(cfgs)]:
             for n in r.notes:
                 if isinstance(n, dict) and "universe" in n:
                     universe = n["universe"]
